@@ -89,6 +89,12 @@ def gen_cfg(depth: int, max_top: int) -> G.GenCfg:
 def run_case(case):
     tr = O.run_trace(case, follow_up=True)
     v2, _v5, info = O.analyse(tr)
+    if not v2 and tr.second is not None:
+        # the same rules in the second run of the method (after Restart / Stop + Start); same signatures, the message says which run
+        v2b, _v5b, info2 = O.analyse(tr.second)
+        v2 = [(s, "[run 2 after %s] %s" % (tr.second_how, m)) for s, m in v2b]
+        info["classes"] = set(info["classes"]) | {"second-run:" + tr.second_how} | \
+            ({"second-run:trailing-ws-at-method-end"} if tr.prog.trailing_ws else set())
     return [Violation(s, m, case) for s, m in v2], info, tr
 
 
